@@ -233,6 +233,15 @@ claim('C13',
       'vacancy/solute site energies fixed to zero in the Lij round trip.',
       'DESIGN.md 3/C13, 2.3')
 
+claim('C15',
+      'Bounded symbolic verification: real VacancyMediated.tags2preene / makeLIMBpreene executed with a SYMBOLIC (prefactor, energy) pair per '
+      'class while the member tag that carries the data, the presence / duplicate flags and injected bogus tags are solver case splits: per '
+      'path the generated arrays equal the supplied data entry for entry, unsupplied classes get the defaults / the LIMB value from the '
+      'harness formula, and the VERBOSE report lists exactly the missing classes, duplicated tags and unrecognised tags (also on a second '
+      'verbose call on the same calculator); tag uniqueness and tag->class consistency for vacancy-mediated and interstitial calculators.',
+      'Calculators enumerated; symbolic member choice for one class at a time, symbolic flags for four classes at a time.',
+      'DESIGN.md 3/C15')
+
 na('C01', 'exact oracle is an infinite-state pair Markov chain reached through Brillouin-zone quadrature, LAPACK and hyp1f1/expi; '
           'agreement only to integration accuracy: no algebraic statement a solver can decide (DESIGN 5)')
 na('C06', 'identities hold only for the true lattice Green function of the omega0 network (numerical k-space integration); '
